@@ -71,26 +71,33 @@ def bucket_cases(draw):
     elif k <= 9:
       ops.append(['advance', draw(st.sampled_from(['0', '1e-9', 'inv_rate', '1', '1e6', '0.3', '61']))])
     else:
-      n = draw(st.sampled_from([1, 5, 50, 1000, 1000]))
+      n = draw(st.sampled_from([1, 5, 50, 1000, 1000, int(cap), int(cap)]))
       ops.append(['set', n, n])
+  if draw(st.integers(0, 5)) == 0:
+    # shutdown-shaped history: quiet period, a flush starts, the limits change in the middle of it, the flush goes on
+    n = draw(st.sampled_from([int(cap), int(cap), 1, 5, 50, 1000]))
+    ops = ([['advance', draw(st.sampled_from(['1e6', '61', '1']))]] * draw(st.integers(0, 1)) +
+           [['burst', draw(st.sampled_from([2, 5, 20, 200, 1100]))], ['set', n, n],
+            ['burst', draw(st.sampled_from([20, 200, 1100, 2500]))]] + ops[:draw(st.integers(0, 6))])
   return {'layer': 'bucket', 'capacity': cap, 'rate': rate, 'ops': ops}
 
 
 def check_windows(grants, rate, burst):
-  """grants sorted times; returns (i, j) violating (j-i+1) <= rate*(gj-gi) + 2*burst, or None. O(n)."""
+  """grants sorted times; returns (i, j) violating (j-i+1) <= rate*(gj-gi) + 2*burst, or None. O(n).
+  Times are taken relative to the first grant so that the tolerance stays relative to the window, not to
+  the absolute clock reading."""
+  if not grants:
+    return None
+  base = grants[0]
   best = None
   best_i = None
   for j, g in enumerate(grants):
-    val = j - rate * g
-    if best is None or (j - rate * g) < best:
-      pass
-    # min over i<=j of (i - rate*g_i)
-    cand = j - rate * g
+    cand = j - rate * (g - base)
     if best is None or cand < best:
       best, best_i = cand, j
-    # (j - i + 1) - rate*(gj - gi) <= 2*burst
+    # (j - i + 1) - rate*(gj - gi) <= 2*burst   for the i minimising (i - rate*g_i)
     lhs = (cand - best) + 1
-    tol = EPS * (1 + abs(rate * g))
+    tol = EPS * (1 + abs(rate * (g - grants[best_i])) + 2 * burst)
     if lhs > 2 * burst + tol:
       return best_i, j
   return None
@@ -212,6 +219,21 @@ def execute_bucket(ctx, case):
                  'epoch %d (rate %s/s, burst %s): %d grants between t+%.6f and t+%.6f; the limit allows rate*w + 2*burst = %.3f' % (
                    k, e['rate'], e['burst'], j - i + 1, g[i] - 1000000.0, g[j] - 1000000.0,
                    e['rate'] * (g[j] - g[i]) + 2 * e['burst']), case, 'window')
+        return
+    # windows that span a limit change: judged against the more permissive of the two neighbouring limits
+    # (a sound bound: before + after a change the bucket can hand out at most B_old + B_new <= 2*max(B) at one instant)
+    for k in range(len(epochs) - 1):
+      a, b2 = epochs[k], epochs[k + 1]
+      both = a['grants'] + b2['grants']
+      r, bst = max(a['rate'], b2['rate']), max(a['burst'], b2['burst'])
+      bad = check_windows(both, r, bst)
+      if bad is not None:
+        i, j = bad
+        ctx.fail('C20:window-exceeded-across-limit-change',
+                 'limits (rate %s, burst %s) -> (rate %s, burst %s): %d grants between t+%.6f and t+%.6f, more than the more '
+                 'permissive of the two limits allows (%.3f)' % (a['rate'], a['burst'], b2['rate'], b2['burst'], j - i + 1,
+                                                                both[i] - 1000000.0, both[j] - 1000000.0,
+                                                                r * (both[j] - both[i]) + 2 * bst), case, 'limit-change')
         return
     ctx.note(case, nontrivial=len(flags) >= 1 and sum(len(e['grants']) for e in epochs) >= 2,
              classes=['bucket'] + sorted(flags))
